@@ -697,7 +697,7 @@ class C14(Prop):
         "abbrev_full_name_resolves", "abbrev_resolves_iff_unique", "abbrev_ambiguous_iff_two", "abbrev_unknown_iff",
         "dashdash_ends_options", "first_nonoption_ends_options", "options_end_where_documented", "remaining_args_in_order", "plus_word_is_argument", "args_returned_in_order", "getArg_is_argv_from_optind",
         "every_history_ends_cleanly", "cmdline_ends_cleanly", "spoof_ends_cleanly", "environment_ends_cleanly", "configfile_ends_cleanly",
-        "setting_succeeds_iff", "integer_argument_syntax", "real_argument_syntax", "char_argument_syntax", "rejected_setting_changes_nothing", "unknown_long_option", "ambiguous_long_option", "argument_to_flag",
+        "setting_succeeds_iff", "integer_argument_syntax", "real_argument_syntax", "real_argument_syntax_iff", "wf_is_computable", "strict_tables_are_wf", "created_object_every_history_clean", "char_argument_syntax", "rejected_setting_changes_nothing", "unknown_long_option", "ambiguous_long_option", "argument_to_flag",
         "missing_argument_long", "unknown_short_option", "verifyConfig_ok_iff_consistent",
         "int_range_two_sided", "int_range_lower", "int_range_upper", "range_string_two_sided", "char_range_two_sided", "real_range_two_sided", "real_range_two_sided_literal", "plain_decimal_is_real", "real_range_lower", "real_range_upper",
         "isUsed_iff", "isDefault_of_default_setter", "not_default_has_setter", "demo_wf")]
@@ -718,7 +718,7 @@ class C14(Prop):
                     "Lean compiler/runtime for the executable driver", "gcc, glibc strtol/strtod/getenv/fgets"]
     assumptions = [
         "the statement's clause '+/- prefixed booleans set and unset' has no anchor in this version of esl_getopts.c or its documentation: a word starting with '+' is an ordinary command-line argument in code and model (generated and compared), so the clause is vacuous here",
-        "well-formed option tables only (names '-c' or '--word', distinct; optlist elements resolve to the option of that exact name under process_optlist's first-prefix match; toggle lists name only boolean/string options; defaults satisfy their own type/range; string options have no range): ill-formed tables reach ESL_EXCEPTIONs by design",
+        "well-formed option tables only — checked on every generated table by the model driver (`wfStrictB`, proved to imply the theorems' hypothesis `WF`) (names '-c' or '--word', distinct; optlist elements resolve to the option of that exact name under process_optlist's first-prefix match; toggle lists name only boolean/string options; defaults satisfy their own type/range; string options have no range): ill-formed tables reach ESL_EXCEPTIONs by design",
         "real values: decimal spellings with <= 6 significant digits and |exponent| <= 12, compared as exact rationals in the model (atof comparisons agree there); hex/inf/nan spellings are not modelled and not generated",
         "bytes are ASCII (isspace/char comparison on bytes >= 0x80 not modelled)",
         "in a config file an argument after a boolean option is ignored by the code (documented format: 'an option and an argument (if the option takes an argument)'); modelled as is",
